@@ -18,7 +18,7 @@ out.append("Each is identified by an exact signature (component : failure kind :
 for f in sorted(findings, key=lambda f: (f["property"], f["signature"])):
     out.append("* **%s** `%s` — %s" % (f["property"], f["signature"], f["what"]))
 out.append("\n### 5.5 Seeded property-breaking changes (`/verif/seeded/`) and the checks that catch them\n")
-out.append("Written by independent sub-agents that saw only the property text; each passes the repository's own pinned suite (all 10581 stable tests) with the change applied, its demonstration fails with the change and passes without it, and the named check was run against a scratch worktree holding the change.\n")
+out.append("Written by independent sub-agents that saw only the property text; each passes the repository's own pinned suite (all 10581 stable tests; a stable test that failed once under machine load was re-run alone) with the change applied, its demonstration fails with the change and passes without it, and the named check was run against a scratch worktree holding the change (`tools/eval_seed.sh`, `tools/seed_suite.py`; records in each `meta.json`).  The pinned suite skips the TLS and HTTP/2 tests (no pyOpenSSL / `priority` in /venv): the authors of the C17 and C29 changes additionally ran Twisted's `test_tls.py` under the system Python with pyOpenSSL and `test_http2.py` with a stand-in `priority`, as their `meta.json` says.\n")
 out.append("| seeded change | summary | needs | check verdict (signatures) |\n|---|---|---|---|")
 for d in sorted(glob.glob(os.path.join(ROOT, "seeded", "*"))):
     mp = os.path.join(d, "meta.json")
